@@ -16,6 +16,7 @@ SEEDS = {
  'C10a': ('C10', 'backmp11 process_event_internal: the event pool is drained only after a direct call', 'completion-source state inside a submachine reached by a forwarded event'),
  'C11a': ('C11', 'backmp11 process_event_internal: blocking test moved after the event-pool block', 'interrupt state active while another region defers the event / event raised by the end-interrupt action'),
  'C12a': ('C12', 'backmp11: result pre-initialised and OR-ed through a reference, handler assignment dropped', 'exception in a region dispatched after a region that already handled the event'),
+ 'C12b': ('C12', 'backmp11 process_completion_transition: the catch handler returns HANDLED_FALSE at once, skipping m_event_processing = false', 'throw from a behaviour of a completion transition reached through process_event, nothing else pending'),
  'C13a': ('C13', 'backmp11 favor_compile_time: transition_chain::execute starts from FALSE and its caller overwrites the submachine result', 'submachine answers GUARD_REJECT and the composite state has no enabled outgoing row for the event (favor_compile_time only)'),
  'C14a': ('C14', 'puml parse_row_right: action length clamped to 0 when the guard is written before the action list', 'a transition line of the form  A -> B : ev [guard] / action'),
  'C15a': ('C15', 'ShallowHistoryImpl::operator=: remembered states loaded from the source\'s initial states', 'copy of a machine whose history region was left in a non-initial state, followed by a history re-entry'),
@@ -32,6 +33,7 @@ SEEDS = {
  'C03b': ('C03', 'back start(): re-initialisation of m_states from the initial states removed ("the constructor did it")', 'stop() and start() again with a region off its initial state'),
  'C19a': ('C19', 'back g_row_: the after_action store was dropped', 'policy after_transition_action, guard-only row, observation from the target entry'),
  'C20a': ('C20', 'basic_polymorphic_base move assignment: control block replaced before destroy()', 'deque erase in the middle with a neighbour of another storage class / destructor'),
+ 'C20b': ('C20', 'backmp11 basic_polymorphic IsInline: alignment test relaxed to alignof(max_align_t) although the inline buffer is only pointer-aligned', 'stored event with 8 < alignof <= 16 (long double, __int128, alignas(16)) that fits the buffer'),
 }
 ids = sys.argv[1:] or sorted(SEEDS)
 rows = []
